@@ -172,13 +172,26 @@ def points_harness(ctx, cfg):
 def _points(ctx, cfg):
     M, TF, D = cfg["M"], cfg["frames"], cfg.get("dims", 2)
     c = np.empty((M, 1 + D), dtype=object)
+    fixed_t, far = cfg.get("fixed_t"), cfg.get("far", ())
     for i in range(M):
-        c[i, 0] = z3.Int(f"t{i}")
-        ctx.add(And(c[i, 0] >= 0, c[i, 0] < TF))
+        if fixed_t is not None:
+            # many-detections run: the frame layout is concrete (ids >= 8 reach Python's set-order / hash-table
+            # effects that small graphs never show), positions stay symbolic except for the `far` rows
+            c[i, 0] = z3.IntVal(fixed_t[i])
+        else:
+            c[i, 0] = z3.Int(f"t{i}")
+            ctx.add(And(c[i, 0] >= 0, c[i, 0] < TF))
         for d in range(D):
-            c[i, 1 + d] = z3.Real(f"p{i}_{d}")
+            if i in far:
+                c[i, 1 + d] = z3.RealVal(-100 * (1 + list(far).index(i)))
+            else:
+                c[i, 1 + d] = z3.Real(f"p{i}_{d}")
+                if far:
+                    ctx.add(And(c[i, 1 + d] >= 0, c[i, 1 + d] <= 10))
     r = z3.Real("r")
     ctx.add(r >= 0)
+    if far:
+        ctx.add(r <= 20)
     ctx.input("points", [[c[i, k] for k in range(1 + D)] for i in range(M)])
     ctx.input("no_frame_dict", bool(cfg.get("no_frame_dict")))
     ctx.input("r", r)
